@@ -103,7 +103,9 @@ def _cli_case(draw, tier):
                 r["proteins"] = r["proteins"][:1]
         files.append(c)
     return {"kind": "cli", "files": files, "leftover": draw(st.sampled_from([None, None, 0, 1, 2])),
-            "leftover_kind": draw(st.sampled_from(["rows", "garbage"]))}
+            "leftover_kind": draw(st.sampled_from(["rows", "garbage"])),
+            # replicate searches: the files bear the same name in different directories
+            "samename": draw(st.booleans())}
 
 
 @st.composite
@@ -220,7 +222,11 @@ def _check_cli(case):
         paths, texts, exps, valid = [], [], [], []
         for i, c in enumerate(case["files"]):
             text, exp = render(c)
-            p = tmp / f"exp{i}.pin"
+            if case.get("samename"):
+                (tmp / f"rep{i}").mkdir()
+                p = tmp / f"rep{i}" / "search.pin"
+            else:
+                p = tmp / f"exp{i}.pin"
             p.write_text(text)
             paths.append(p)
             texts.append(text)
@@ -232,7 +238,12 @@ def _check_cli(case):
             left = Path(str(paths[lo % len(paths)]) + ".tsv")
             left.write_text("SpecId\tLabel\tScanNr\tPeptide\tProteins\nold\t1\t7\tPEPK\tPX\n" if case.get("leftover_kind") == "rows"
                             else "left over from an interrupted run\n")
+        parsed = []
+
         def stop(*a, **k):
+            # what the command line hands to the parser after its verify step
+            arg = a[0] if a else k.get("pin_files")
+            parsed.extend([Path(str(x)) for x in (arg if isinstance(arg, (list, tuple)) else [arg])])
             raise _StopAfterVerify()
 
         real = cli.read_pin
@@ -251,15 +262,22 @@ def _check_cli(case):
             cli.read_pin = real
         kinds = ["rect" if v else ("dd" if c["dd"] else "ragged") for v, c in zip(valid, case["files"])]
         where = f"files {kinds}, leftover next to file {lo if lo is None else lo % len(paths)} ({case.get('leftover_kind')})"
+        require(len(parsed) == len(paths), "cli-verify-file", f"{len(parsed)} files handed to the parser for {len(paths)} inputs; {where}")
         for i, p in enumerate(paths):
-            got = p.read_text()
             want = texts[i] if valid[i] else exps[i]
+            # the file that is parsed for input i holds input i, converted if it needed conversion ...
+            got = parsed[i].read_text()
             require(got == want, "cli-verify-file",
-                    f"file {i} ({kinds[i]}) after the verify step: {got.count(chr(10))} lines, expected "
+                    f"file parsed for input {i} ({kinds[i]}, {parsed[i].name}) after the verify step: {got.count(chr(10))} lines, expected "
                     f"{'its unchanged content' if valid[i] else 'the conversion of its own content'} ({want.count(chr(10))} lines); {where}")
-            with open(p) as fh:
-                require(pt.is_valid_tsv(fh) is True, "cli-verify-file", f"file {i} ({kinds[i]}) is not a valid TSV after the verify step; {where}")
+            with open(parsed[i]) as fh:
+                require(pt.is_valid_tsv(fh) is True, "cli-verify-file", f"file parsed for input {i} ({kinds[i]}) is not a valid TSV; {where}")
+            # ... and the input file itself is either untouched or converted in place, never anything else
+            now = p.read_text()
+            require(now in (texts[i], want), "cli-input-changed", f"input file {i} ({kinds[i]}) holds neither its own content nor its conversion; {where}")
     classes = ["cli-verify", "cli-files-" + "+".join(kinds)]
+    if case.get("samename") and len(paths) >= 2:
+        classes.append("cli-equally-named-files-in-different-directories")
     if lo is not None:
         classes.append("cli-leftover-tsv-next-to-" + kinds[lo % len(paths)])
     nontrivial = len(paths) >= 2 and any(valid) and not all(valid) or lo is not None
